@@ -115,8 +115,8 @@ def quiet(fn):
 call_st = st.one_of(
     st.fixed_dictionaries({"f": st.just("map"), "layers": st.lists(st.sampled_from(["L1", "L2", "L3"]), min_size=1, max_size=2),
                            "scatter": st.sampled_from([False, False, True]),
-                           "res": st.sampled_from(["R", "R", "int"]), "dz": st.sampled_from([None, None, 0.3141, 0.6271]),
-                           "op": st.sampled_from([None, "mean", "sum"]), "dx": st.sampled_from(["DX", "DX", None]),
+                           "res": st.sampled_from(["R", "R", "int"]), "dz": st.sampled_from([None, 0.3141, 0.6271]),
+                           "op": st.sampled_from([None, "mean", "sum"]), "dx": st.sampled_from(["DX", "DX", "DX", None]),
                            "origin": st.sampled_from(["O", "O", None]), "dir": st.sampled_from(["z", "x", "N"]),
                            "plot": st.sampled_from([False, False, False, False, False, True]),
                            "norm": st.sampled_from([None, "log"]), "vmin": st.sampled_from([None, 0.5])}),
@@ -131,7 +131,7 @@ call_st = st.one_of(
     st.fixed_dictionaries({"f": st.just("plot"), "two": st.booleans(), "kw": st.sampled_from([None, "--"])}),
 )
 hist_case_st = st.fixed_dictionaries({
-    "rkeys": st.sampled_from(["x", "xy", "y", "xyz", "xz", ""]),
+    "rkeys": st.sampled_from(["x", "xy", "xy", "y", "xyz", "xz", "", "xy"]),
     "l1": st.fixed_dictionaries({"mode": st.sampled_from([None, "image"]), "operation": st.sampled_from([None, "mean"]),
                                  "norm": st.sampled_from([None, "log"]), "vmin": st.sampled_from([None, 1.0]),
                                  "cmap": st.sampled_from([None, "magma"])}),
